@@ -167,11 +167,19 @@ impl JobManager {
         #[cfg(feature = "verif-hooks")]
         crate::verif_hooks::pause("wait_all_start");
 
+        // Wait for every job, even when an earlier one ended with an error.
+        let mut first_error = None;
         for job in &mut self.jobs {
-            job.wait().await?;
+            if let Err(err) = job.wait().await {
+                first_error.get_or_insert(err);
+            }
         }
 
-        Ok(self.sweep_completed_jobs())
+        let completed = self.sweep_completed_jobs();
+        match first_error {
+            Some(err) => Err(err),
+            None => Ok(completed),
+        }
     }
 
     /// Polls all managed jobs for completion.
@@ -375,7 +383,15 @@ impl Job {
         let mut result = ExecutionResult::success();
 
         while let Some(task) = self.tasks.back_mut() {
-            match task.wait().await? {
+            let wait_result = task.wait().await;
+            if wait_result.is_err() {
+                // A task that ended with an error has still ended; it must not be awaited again.
+                self.tasks.pop_back();
+                if self.tasks.is_empty() {
+                    self.state = JobState::Done;
+                }
+            }
+            match wait_result? {
                 JobTaskWaitResult::Completed(execution_result) => {
                     result = execution_result;
                     self.tasks.pop_back();
